@@ -123,10 +123,11 @@ def run_layout(lay, quick):
 
     viol, cnt, hashes = [], {}, []
     lh = common.chash(lay)
+    state = {}
 
     def add(kind, what, q, exc=None):
         sig = {"kind": kind, "mode": q.get("mode"), "range_kind": q.get("rk")}
-        if lay.get("cuts2") and sorted(set(lay["cuts2"])) != sorted(set(lay["cuts"])):
+        if state.get("unaligned"):
             sig["unaligned_two_targets"] = True
         if exc is not None:
             sig.update(common.exc_sig(exc))
@@ -154,6 +155,8 @@ def run_layout(lay, quick):
         run_start, run_end = md["chunks"][0]["start"], md["chunks"][-1]["end"]
         if len(targets) > 1:
             md2 = st.get_metadata("0", targets[1])
+            # the two requested types are stored in different chunk layouts (mechanism of known finding F28)
+            state["unaligned"] = [(c["start"], c["end"]) for c in md["chunks"]] != [(c["start"], c["end"]) for c in md2["chunks"]]
             chunk_bounds = sorted(set(chunk_bounds) | {c["start"] for c in md2["chunks"]} | {c["end"] for c in md2["chunks"]})
         nstored = len(md["chunks"])
         before = listing(d)
